@@ -17,4 +17,4 @@ def run(ctx):
         select=lambda e: e['ev']['op'] in ('add', 'merged') and not e['ev']['ok'],
         meta_rule='every rejected AddFeature / failing MergedChange transition of the TLC graph executed via its shortest prefix on 4 world constructions + random walks',
         assumptions=['rejection is judged by the error returned by the real call'],
-        focused=(120, 2000))
+        focused=(120, 800))
